@@ -152,6 +152,10 @@ def case_cmds(case, audios, bp=1):
     cmds = ["newdec " + " ".join(case["cfg"]), "jsgf " + case["grammar"].encode().hex(), "audio " + audios[case["audio"]], "start"]
     pos = 0
     ops = " " + case["ops"] if case.get("ops") else ""
+    if case.get("full"):
+        # everything searched inside one full_utt call: request the lattice on both sides of decoder_end_utt
+        cmds += [f"procfull {case['cut']}", f"lat pre {min(case['k'], 200)} {bp}{ops}", "end", f"lat end {case['k']} {bp}{ops}"]
+        return cmds
     for i, m in enumerate(case["mids"]):
         if case.get("sweep"):
             cmds += [f"proc {m - pos}", f"lat mid{i} 0 2"]      # light request (no history dump, no search passes)
@@ -241,6 +245,8 @@ def parse(out):
             cur["PX"].append((unhx(w[2]), int(w[3]), int(w[4])))
         elif w[0] == "PH":
             cur["PH"] = unhx(w[1])
+        elif w[0] == "K":
+            cur["K"] = kv(w[1:])
         elif w[0] == "S":
             cur["same_after"] = int(w[1].split("=")[1])
         elif w[0] == "HO":
@@ -482,7 +488,7 @@ def lat_stats(stats, d, case):
     inc(f"grammar:{case['kind']}")
     inc(f"beam:{case['beam']}")
     inc(f"audio:{case['audio']}")
-    inc("request:" + ("end" if d["tag"] == "end" else "mid"))
+    inc("request:" + ("end" if d["tag"] == "end" else "before-end-of-full_utt-decode" if d["tag"] == "pre" else "mid"))
     if d["null"]:
         inc("lattice:NULL")
         return
@@ -534,6 +540,14 @@ def judge_c11(c, d, rep, tab, case, stats):
     G = d["G"]
     if G["same"] != 1 or d.get("same_after", 1) != 1:
         probs.append(("second lattice request without new audio returned a different object", True, None))
+    K = d.get("K")
+    if K and K["held_frames"] == K["now_frames"]:
+        stats["cache:request-at-unchanged-frame-count-after-other-calls"] = stats.get("cache:request-at-unchanged-frame-count-after-other-calls", 0) + 1
+        if d["tag"] == "end":
+            stats["cache:same-frame-count-across-decoder_end_utt"] = stats.get("cache:same-frame-count-across-decoder_end_utt", 0) + 1
+        if K["same_as_held"] != 1:
+            probs.append((f"the lattice request {'after decoder_end_utt' if d['tag'] == 'end' else 'at ' + d['tag']} returned a different object than the previous request "
+                          f"although no frame was searched in between ({K['now_frames']} frames both times)", True, None))
     if G["nframes"] != d["frame"] or G["api_nframes"] != G["nframes"]:
         probs.append((f"lattice frame count {G['nframes']} != search frame count {d['frame']}", True, None))
     for i, n in enumerate(d["nodes"]):
@@ -640,7 +654,9 @@ def eval_case(c, binp, audios, case, stats, with_build=True):
 
 def describe(case):
     return dict(grammar=case["grammar"], audio=f"tests/data/{case['audio']}" + (".raw" if case["audio"] != "pizza" else "-float32.raw (converted to int16)"),
-                config=case["cfg"], samples_fed=case["cut"], lattice_requests_after_samples=case["mids"] + ["end"], nbest=case["k"])
+                config=case["cfg"], samples_fed=case["cut"], nbest=case["k"],
+                lattice_requests_after_samples=(["all samples in one decoder_process_int16(full_utt=1) call, before decoder_end_utt", "end"]
+                                                if case.get("full") else case["mids"] + ["end"]))
 
 
 def load_corpus(prop):
@@ -674,6 +690,11 @@ def check(c):
         cs = gen_case(rng, audios)
         if rng.chance(0.5):
             cs = aim_case(rng, cs, audios, stats)
+        cases.append(cs)
+    # cache across decoder_end_utt: full_utt decodes (nothing left to flush) with a request on both sides of the end
+    for _ in range(4 if c.tier == "quick" else 60):
+        cs = gen_case(rng, audios)
+        cs.update(full=True, mids=[])
         cases.append(cs)
     # position sweeps: one decode, a (light) lattice request every few frames — requests are cheap compared with the decode
     lin = "#JSGF V1.0; grammar g; public <g> = go forward ten meters ;"
@@ -745,6 +766,9 @@ def check(c):
     c.oblige("correspondence: model buildLattice on the dumped history = lattice of fsg_search_lattice (nodes, links, scores, start/end; canonically sorted) on every request",
              build_ok, f"{nmism} mismatching requests")
     c.oblige("every harness run finished without sanitizer report, assert or leak", harness_ok)
+    if harness_ok:
+        c.oblige("the cache clause was exercised across decoder_end_utt at an unchanged frame count (full_utt decodes)",
+                 stats.get("cache:same-frame-count-across-decoder_end_utt", 0) >= 1, {k: v for k, v in stats.items() if k.startswith("cache")})
     c.cov.update({"evaluations": nlat, "distinct_nontrivial": len(distinct),
                   "rule": "one evaluation = one lattice request (mid-utterance or final) of a generated decode; non-trivial = a lattice was returned; "
                           "distinct by (grammar, audio, config, frame count)",
